@@ -198,6 +198,8 @@ func (s *vfSink) snapshot() []string {
 }
 
 func vfNewWorld(cfg Config) *vfWorld {
+	// maprev: the engine iterates maps in insertion order, or in reverse
+	zzvf.MapOrder(zzvf.ParamOr("maprev", 0) == 1)
 	m := &vfMQ{}
 	s := &Service{cfg: cfg, logger: vfLogger{}, mq: m}
 	if s.cfg.APIPath == "" {
